@@ -66,6 +66,23 @@ var c14Hostile = []string{
 	`l40 = "0123456789012345678901234567890123456789"`,
 }
 
+func init() {
+	// strings over all byte values written as raw bytes (backquoted), so that building them does not go through the
+	// escape decoder that reloading the saved (escaped) form exercises
+	var lo, hi []byte
+	for b := 1; b < 256; b++ {
+		if b == '`' {
+			continue
+		}
+		if b < 128 {
+			lo = append(lo, byte(b))
+		} else {
+			hi = append(hi, byte(b))
+		}
+	}
+	c14Hostile = append(c14Hostile, "rawlo = `"+string(lo)+"`", "rawhi = `"+string(hi)+"`", "rawm = {`"+string(hi[:40])+"`: [`"+string(lo[:31])+"`]}")
+}
+
 // c14Names extracts the bound names from a saved file.
 func c14Names(file string) []string {
 	var out []string
